@@ -35,6 +35,8 @@ def run(ctx, R, tier):
     reserve(F, R)
     play_inserts(F, R)
     capacities(F, R)
+    storage_loops(F, R)
+    one_controller(F, R)
     # prompt removal / never early: the track removal predicate (shared with C12)
     from .c12 import remove_rule
     remove_rule(F, R, rule='B.C08.remove')
@@ -373,3 +375,65 @@ def keys(F, R):
             if 'atomic_arena::Arena<T> as std::ops::Index' in cp and not b.path.startswith(SR):
                 idx.append('%s (%s)' % (b.path, b.where(bb)))
     R.check(not idx, 'B.C08.key', 'no-index', 'arena indexed by key (panics on stale ids): %s' % idx[:3], detail='only SelfReferentialResourceStorage indexes its arena, with its own key list')
+
+
+def storage_loops(F, R):
+    """Prompt removal, never early: (1) the index loop of SelfReferentialResourceStorage::remove_unused visits every key -
+    on the path that removes `keys[i]` the index is not advanced (the next key has moved into position i), on the other
+    path it advances by one; (2) both storages test the resources they already hold BEFORE they pick up the new ones from
+    the queue (a resource that has just arrived has not picked up its own children / sounds yet, so its removal test would
+    see it empty: a persisting track dropped right after creation would vanish, a parent would go before its child)."""
+    from ..rules import order_ok
+    SR = 'backend::resources::SelfReferentialResourceStorage::<T>'
+    b = F.inlined_view(SR + '::remove_and_add', depth=1, pred=lambda hp: hp.startswith(SR + '::')) or F.body(SR + '::remove_unused')
+    ru = F.body(SR + '::remove_unused') or b
+    if R.check(ru is not None, 'B.C08.loops', 'anchor:remove_unused', 'remove_unused not found'):
+        rem = [x for x, t in ru.calls() if (callee_path(t) or '').endswith('std::vec::Vec::<T, A>::remove') or (callee_path(t) or '').endswith('Vec::<T, A>::swap_remove')]
+        incs = [(x, si) for x, si, s in ru.stmts() if s['k'] == 'assign' and s['rv']['k'] == 'bin' and s['rv']['op'] in ('Add', 'AddWithOverflow', 'AddUnchecked')
+                and ru.local_name(s['lhs']['l']) is not None and describe(ru, s['rv']['b']) in ('1', 'const 1_usize')]
+        ok = len(rem) == 1 and len(incs) >= 1
+        why = 'no keys.remove(i) / i += 1 pair found'
+        if ok:
+            L = [l for l in ru.loops() if rem[0] in l['blocks']]
+            ok = bool(L)
+            if ok:
+                hdr = max(L, key=lambda l: len(l['blocks']))['header']
+                after_rem = ru.reachable([rem[0]], stop=[hdr])
+                ok = not any(x in after_rem for x, _ in incs) and len(set(x for x, _ in incs)) == 1
+                why = 'the index is advanced on the path that has just removed keys[i] (the key that moved into position i is skipped until the next callback)'
+        R.check(ok, 'B.C08.loops', 'remove_unused:index', 'SelfReferentialResourceStorage::remove_unused: %s' % why,
+                detail='if removed { keys.remove(i) } else { i += 1 }', where=ru.file)
+    for st in ('backend::resources::ResourceStorage::<T>', SR):
+        v = F.inlined_view(st + '::remove_and_add', depth=1, pred=lambda hp: hp.startswith(st + '::')) or F.body(st + '::remove_and_add')
+        if not R.check(v is not None, 'B.C08.loops', 'anchor:' + st.split('::')[-2], 'remove_and_add not found'):
+            continue
+        pushes = [x for x, t in v.calls() if (callee_path(t) or '').endswith('rtrb::Producer::<T>::push')]
+        pops = [x for x, t in v.calls() if (callee_path(t) or '').endswith('rtrb::Consumer::<T>::pop')]
+        R.check(bool(pushes) and bool(pops) and order_ok(v, pushes, pops), 'B.C08.loops', st.split('::')[-2] + ':remove-then-add',
+                '%s::remove_and_add does not finish testing / removing what it holds before it takes new resources from the queue' % st,
+                detail='removal loop ≺ new_resource_consumer.pop loop', where=v.file)
+
+
+def one_controller(F, R):
+    """"Creation succeeds exactly when fewer than capacity OF THAT KIND are alive": a function that creates a resource
+    consults one controller only - the one it reserves / inserts with.  (A fail-fast `is_full()` test on a sibling
+    controller, e.g. the sound controller of a track that is about to get a child track, refuses creation for the wrong
+    reason.)"""
+    from ..rules import self_field_of_call
+    n = 0
+    for b in F.bodies:
+        if b.krate != 'kira' or '{closure' in b.path:
+            continue
+        rec = {}
+        for bb, t in b.calls():
+            cp = callee_path(t) or ''
+            if cp.startswith('backend::resources::ResourceController::<T>::'):
+                f = (self_field_of_call(b, t, 0) or describe(b, t['args'][0], depth=4, at=bb)).split('.')[-1]
+                rec.setdefault(f, []).append(cp.split('::')[-1])
+        creates = [f for f, ms in rec.items() if any(m in ('try_reserve', 'insert', 'insert_with_key') for m in ms)]
+        if not creates:
+            continue
+        n += 1
+        R.check(len(rec) == 1, 'B.C08.one-controller', b.path, '%s creates a resource through %s but also consults %s' % (b.path, creates, sorted(set(rec) - set(creates))),
+                detail={'controllers': {k: sorted(set(v)) for k, v in rec.items()}}, where=b.file, nontrivial=False)
+    R.floor('B.C08.one-controller', n, 10)
